@@ -219,7 +219,14 @@ pub fn build_universe_with(
         let as_json = !from_corpus && rng.chance(25);
         let sdl = if as_json { serde_json::to_string(&schema.to_json(&RenderKnobs { json_wrapped: rng.chance(50), ..knobs.clone() })).unwrap() } else { schema.to_sdl(&knobs) };
         rep.count(if as_json { "schema-format:json" } else { "schema-format:sdl" });
-        let qtext = doc.render();
+        // a fifth of the random documents carry `@include(if: true)` / `@skip(if: false)` on some selections: directives that
+        // change neither the response nor (C13) the types
+        let qtext = if !from_corpus && rng.chance(20) {
+            rep.count("document:literal-directives");
+            doc.render_decorated(rng.range(1, 3) as u32)
+        } else {
+            doc.render()
+        };
         // An eighth of the random cases are delivered the way the derive macro delivers them: the options are written
         // as the text of a `#[graphql(...)]` attribute (keys in random positions, booleans spelled out, flags next
         // to `key = value` pairs) and the implementation's options come from the derive's own option builder applied to
@@ -288,6 +295,18 @@ pub fn build_universe_with(
     }
     for e in &build.global_errors {
         rep.internal.push(format!("consumer build: {}", e));
+    }
+    // a generated module that does not compile cannot keep any promise about the wire: a failure of the property being
+    // checked, unless the input falls in an open finding recorded under C02 (class computed from the input)
+    for c in cases.iter().filter(|c| !c.compiled) {
+        let codes: Vec<String> = c.compile_errors.clone();
+        match super::c02::known_compile_class(&c.schema, &c.doc, &c.opts, &codes) {
+            Some(class) => rep.count(&format!("not-compiling:recorded-under-C02:{}", class)),
+            None => rep.fail(
+                "generated-code-does-not-compile",
+                json!({"errors": c.compile_errors.iter().take(6).collect::<Vec<_>>(), "schema": c.sdl, "query": c.qtext, "options": c.opts.describe()}),
+            ),
+        }
     }
     rep.count_n("cases_generated", cases.len() as u64);
     rep.count_n("cases_compiled", build.compiled.len() as u64);
